@@ -387,6 +387,13 @@ func addFSIntrinsics(m map[string]intrinsic) {
 			return []Value{IntV{T: c.BV(64, 0)}, p.pathError("read", h.name, errnoEIO)}
 		}
 		p.fsEvent("read", h.name, false)
+		if !off.IsConst() {
+			// a symbolic file offset (e.g. one decoded from file content): fork into "at or past the end" and every
+			// concrete offset inside the file, so that the copy below reads concrete positions
+			if p.branch(c.And(c.SLE(c.BV(64, 0), off), c.SLT(off, h.node.size))) {
+				off = c.BV(64, p.concretize(off, 1<<16, "file read offset"))
+			}
+		}
 		// n = min(len(dst), max(size-off, 0))
 		avail := c.Ite(c.SLT(off, h.node.size), c.Sub(h.node.size, off), c.BV(64, 0))
 		nT := c.Ite(c.ULT(dst.Len, avail), dst.Len, avail)
@@ -476,6 +483,17 @@ func addFSIntrinsics(m map[string]intrinsic) {
 			st.files[dir] = st.newNode(p, true)
 			st.durable[dir] = st.files[dir]
 		}
+		return nil
+	}
+	m["verif:verifFSRoot"] = func(p *Path, fn *ssa.Function, a []Value, pos token.Pos, caller *ssa.Function) []Value {
+		return []Value{p.stringConst("/vfs")}
+	}
+	// verifFSRemove(path): harness-side removal (volatile and durable), not counted as a mutation of the code under test
+	m["verif:verifFSRemove"] = func(p *Path, fn *ssa.Function, a []Value, pos token.Pos, caller *ssa.Function) []Value {
+		st := p.fsState()
+		name := path.Clean(p.concStr(a[0], "verifFSRemove name"))
+		delete(st.files, name)
+		delete(st.durable, name)
 		return nil
 	}
 	m["verif:verifFSMkdir"] = func(p *Path, fn *ssa.Function, a []Value, pos token.Pos, caller *ssa.Function) []Value {
